@@ -372,7 +372,25 @@ def run_check(chk, argv):
     t0 = time.perf_counter()
     P = chk.id
     findings = Findings()
-    chk.setup()
+    try:
+        chk.setup()
+    except (Exception, SystemExit) as e:
+        # the harness cannot even attach to this tree (an interface it drives is gone, a source shape it reads to pick
+        # the model variant is unknown): the tie between model and code is broken before any input was run.  That is
+        # reported like any other broken obligation — not as an infrastructure error, which would hide a changed tree.
+        import traceback
+        path = write_replay(P, "broken", {"property": P, "kind": "broken-obligation", "case": None,
+                                          "broken": [["harness-setup", "%s: %s" % (type(e).__name__, e)]], "traceback": traceback.format_exc()[-1500:],
+                                          "search": {"cases_tried": 0, "found": False}})
+        print("VIOLATION property=%s replay=%s no-failing-input-found" % (P, path))
+        os.makedirs(EVIDENCE_DIR, exist_ok=True)
+        json.dump({"property_id": P, "tier": tier, "seed": seed, "level": "proof",
+                   "coverage": {"obligations": len(chk.theorems), "discharged": 0, "checker_cmd": "none: harness setup failed",
+                                "trusted_base": list(chk.trusted_base), "broken": [["harness-setup", str(e)[:500]]]},
+                   "assumptions": list(chk.assumptions), "wall_s": round(time.perf_counter() - t0, 2), "violations": 1},
+                  open(os.path.join(EVIDENCE_DIR, P + ".json"), "w"), indent=1, default=str)
+        log("%s %s: harness setup failed (%s: %s) -> exit 1" % (P, tier, type(e).__name__, str(e)[:200]))
+        return 1
 
     if args.replay:
         rp = json.load(open(args.replay))
